@@ -37,6 +37,14 @@
 (* as written the loop clears the list only after it has reaped everything.  Mutant switch ClearFirst  *)
 (* (TLC must reject it): the loop takes the lists over and clears them BEFORE reaping - a handler that  *)
 (* runs during the loop then finds nothing to kill and the children not yet reaped outlive the server.  *)
+(* Child states "swallow-gone" / "coop-gone": a persistent worker busy in a swallowing / cooperative     *)
+(* target whose CLIENT process has been killed: the client's data socket has linger 0, so the           *)
+(* server-side socket is reset and shutdown(SHUT_RD) in _release_child fails with ENOTCONN (a plain      *)
+(* OSError, caught as written).  Mutant switch NarrowExcept (TLC must reject it): only ConnectionError   *)
+(* is caught there, so terminate() of that child raises right after sending the request - before the      *)
+(* join and the forced kill - and the bare `except:` of the finally loop also skips the                   *)
+(* `if child.is_alive(): os.kill()` backstop: a swallowing backend is never killed, the server hangs in   *)
+(* its exit join until the parent's SIGTERM (whose handler finds `children` already cleared).             *)
 (* Fix switches: CtxTerm (proposed_fixes/C12_context_helper_*.diff): a helper that is SIGTERMed   *)
 (* kills the backends it started (as the server's own handler does) before it dies; DupTerm        *)
 (* (proposed_fixes/C12_rejected_duplicate_*.diff): the context built for a refused duplicate        *)
@@ -44,11 +52,12 @@
 (* ProcessWorker.terminate escalates to SIGKILL when the child survives SIGTERM + join).             *)
 EXTENDS Naturals, Sequences, FiniteSets, TLC, ServerProps
 
-CONSTANTS MaxKids, KidStates, Racers, CtxTerm, DupTerm, ParentKill, ClearFirst
+CONSTANTS MaxKids, KidStates, Racers, CtxTerm, DupTerm, ParentKill, ClearFirst, NarrowExcept
 
 CtxKinds == <<"inctx", "inctx-coop", "inctx-swallow">>      \* one context (helper) per kind, in `contexts` order
 IsCtx(s) == s \in {"inctx", "inctx-coop", "inctx-swallow"}
-Swallows(s) == s \in {"swallow", "inctx-swallow"}
+Swallows(s) == s \in {"swallow", "inctx-swallow", "swallow-gone"}
+OwnerGone(s) == s \in {"swallow-gone", "coop-gone"}
 
 VARIABLES how, kid, racer,      \* the configuration
           ost,                  \* kid -> "run" | "dead"                      (OS truth about its backend)
@@ -91,7 +100,7 @@ Handshake == /\ spc = "serving" /\ rk = "spawned"
              /\ rk' = "appended"
              /\ UNCHANGED <<how, kid, racer, ost, rep, spc, fi, hst, hj, req, sig, sigused, waiting, elapsed>>
 \* the asynchronous WTE reaches the accept thread (a blocked one only once a signal interrupts its system call)
-ExitBlocked == (\E k \in 1..N : kid[k] = "orphan" /\ ost[k] = "run") \/ rk = "spawned"
+ExitBlocked == (\E k \in 1..N : (kid[k] = "orphan" \/ k \in Direct) /\ ost[k] = "run") \/ rk = "spawned"
 Deliver == /\ req /\ (spc = "serving" \/ (spc = "blocked" /\ sig))
            /\ spc' = "fin" /\ fi' = 1
            /\ sig' = (IF spc = "blocked" THEN FALSE ELSE sig)        \* the signal is used up aborting its own handler
@@ -105,7 +114,8 @@ ParentKillStep == /\ ParentKill /\ req /\ sigused /\ ~sig /\ spc = "exiting" /\ 
                   /\ spc' = "dead"
                   /\ UNCHANGED <<how, kid, racer, ost, rep, fi, hst, hj, req, sig, sigused, waiting, elapsed, rk>>
 \* SIGTERM handler: kills `children` (the racer's backend only if already appended), not the contexts; then dies
-Listed == ~(ClearFirst /\ spc \in {"fin", "exiting"})         \* is there anything in self.children for the handler to walk?
+\* is there anything in self.children for the handler to walk?  (as written the loop clears the list when it is through)
+Listed == spc # "exiting" /\ ~(ClearFirst /\ spc = "fin")
 Handler == /\ sig /\ spc # "dead" /\ ~(spc = "blocked" /\ req)
            /\ ost' = [k \in 1..N |-> IF k \in Direct /\ Listed THEN "dead" ELSE ost[k]]
            /\ rk' = (IF rk = "appended" /\ Listed THEN "dead" ELSE rk)
@@ -118,6 +128,10 @@ FinChild ==
    /\ LET k == fi IN
       IF k \notin Direct \/ ost[k] = "dead"
       THEN UNCHANGED <<ost, rep, elapsed, waiting>> /\ fi' = fi + 1      \* not in `children` / is_alive() is False
+      ELSE IF NarrowExcept /\ OwnerGone(kid[k])
+      THEN /\ ost' = [ost EXCEPT ![k] = IF Swallows(kid[k]) THEN "run" ELSE "dead"]   \* request sent, then OSError: no join, no kill, no backstop
+           /\ rep' = [rep EXCEPT ![k] = IF Swallows(kid[k]) THEN "none" ELSE "WTE"]
+           /\ fi' = fi + 1 /\ UNCHANGED <<elapsed, waiting>>
       ELSE IF ~Swallows(kid[k])
       THEN /\ ost' = [ost EXCEPT ![k] = "dead"] /\ rep' = [rep EXCEPT ![k] = "WTE"]
            /\ fi' = fi + 1 /\ UNCHANGED <<elapsed, waiting>>
@@ -188,7 +202,7 @@ KidObs(k) == IF ost[k] = "dead"
              ELSE [os_dead |-> "F", wait |-> "hang", alive |-> "T", has_error |-> "None", error |-> "None", blocked |-> "T"]
 Left == Cardinality({k \in 1..N : ost[k] # "dead"}) + (IF rk \in {"spawned", "appended"} THEN 1 ELSE 0)
 Rec == [scn |-> [how |-> how, racer |-> racer,
-                 kids |-> [k \in 1..N |-> [state |-> kid[k], parent |-> IF kid[k] = "orphan" THEN "F" ELSE "T"]]],
+                 kids |-> [k \in 1..N |-> [state |-> kid[k], parent |-> IF kid[k] = "orphan" \/ OwnerGone(kid[k]) THEN "F" ELSE "T"]]],
         obs |-> [srv_dead |-> IF spc = "dead" THEN "T" ELSE "F", left |-> Left,
                  kids |-> [k \in 1..N |-> KidObs(k)]]]
 
